@@ -105,8 +105,11 @@ void RSAggregator::TransferIheritedData() {
           newMode->definition = flag;
         }
         if (oldMode->convention) {
-          const auto flag = prevOutput->GetRS(item.first).convention != output.GetRS(item.second).convention;
-          output.SetConventionFor(newCst.uid, prevOutput->GetRS(item.first).convention);
+          // Note: convention is a free text, so only known names are translated and nothing is marked as error
+          auto convention = prevOutput->GetRS(item.first).convention;
+          rslang::SubstituteGlobals(convention, nameSubstitutes);
+          const auto flag = convention != output.GetRS(item.second).convention;
+          output.SetConventionFor(newCst.uid, convention);
           newMode->convention = flag;
         }
         if (oldMode->term) {
